@@ -6,7 +6,7 @@ package redisemu
 // (C06), dirty marking (C19). The per-method blocks at the end are generated
 // by /verif/scripts/gen_store_contracts.py; the primitives are written by hand.
 
-//@ immutable dataStoreCommand.ds dataStoreCommand.id dataStore.data dataStore.waitingClients
+//@ immutable dataStoreCommand.ds dataStore.data dataStore.waitingClients cmdContext.cs cmdContext.dsc cmdContext.cd cmdContext.multi cmdContext.args clientState.dss cmdDispatcher.dss
 // a table allocated during the current command and not (yet) reachable from the keyspace
 //@ ghostfield redisDict.scratch bool
 //@ ghost held bool
